@@ -22,6 +22,8 @@ PROP = 'C11'
 
 
 def _kw(pm, item, fresh=True, shared=None):
+    if item.get('bare'):
+        return {}       # minify(source) with nothing else: the defaults in the signature (one shared options object) are used
     o = dict(item['opts'])
     pl = o.pop('preserve_locals', None)
     pg = o.pop('preserve_globals', None)
@@ -106,6 +108,8 @@ def run_history(case):
     shared = {}
     res = {'status': 'held', 'violations': [], 'nontrivial': [], 'counters': {'history_calls': 0, 'purity_checks': 0}}
     seq = [r.randrange(len(items)) for _ in range(case['length'])]
+    if case.get('sequence'):
+        seq = list(case['sequence'])
     prefix = []
     for step, idx in enumerate(seq):
         item = items[idx]
@@ -272,6 +276,8 @@ def build_items(tier, seed):
                 o['rename_locals'] = True
             items.append({'name': '%s#%d' % (name, j), 'src_b64': base64.b64encode(b).decode('ascii'), 'opts': o,
                           'as_text': r.random() < 0.5 and _is_utf8(b)})
+        if name.startswith('seed:'):
+            items.append({'name': '%s#bare' % name, 'src_b64': base64.b64encode(b).decode('ascii'), 'opts': options.default(), 'bare': True, 'as_text': _is_utf8(b)})
     return items
 
 
@@ -322,7 +328,8 @@ def main(tier, seed):
     run.notes.append('t_flags=%.1f' % (time.time() - run.t0))
     # ---- (a2) the same sweep with the minifier running in the other interpreters (dict and set order depend on the hash seed below 3.7)
     cross_items = [it for it in items if it['as_text'] or _is_utf8(base64.b64decode(it['src_b64']))]
-    cross_items = cross_items[::(3 if tier == 'quick' else 1)]
+    forced = [it for it in cross_items if any(k in it['name'] for k in ('fstring_three_levels', 'fstring_plain', 'annotations', 'invalid_escape', 'site_builtins'))]
+    cross_items = forced + [it for it in cross_items[::(3 if tier == 'quick' else 1)] if it not in forced]
     outs = {}
     for version, py in common.interpreters():
         if version == '3.12-venv' or run.timed_out():
@@ -350,6 +357,28 @@ def main(tier, seed):
             env['PYTHONPATH'] = common.REPO_SRC
             pool.run_cases(ops, None, cmd=[py, '-W', 'ignore', os.path.join(common.VERIF, 'vf', 'compat_worker.py')], env=env, timeout=60, batch=10, on_result=on_x,
                            deadline=run.deadline, nworkers=6)
+    # the same items, one fresh process each (hash seed 0): what an earlier call in the same worker process left behind would show as a difference
+    for version, py in common.interpreters():
+        if version == '3.12-venv' or run.timed_out():
+            continue
+        if tier == 'quick' and version not in ('2.7.18', '3.6.15', '3.10.13'):
+            continue
+        fresh_items = [it for it in cross_items if it['name'].startswith('seed:')][:(40 if tier == 'quick' else 400)]
+        ops = [{'op': 'minify', 'src': base64.b64decode(it['src_b64']).decode('utf-8'), 'opts': it['opts'], 'case_timeout': 40, 'name': it['name']} for it in fresh_items]
+
+        def on_f(o, r, version=version):
+            if r.get('status') != 'ok':
+                return
+            key = (version, o['name'])
+            run.count('cross_interpreter_fresh_process_runs')
+            if key in outs and outs[key][1] != _h(r['out']):
+                run.add({'layer': 'cross-fresh', 'interpreter': version, 'item': o['name'], 'opts': o['opts'], 'src': o['src']},
+                        {'status': 'violation', 'violations': [{'mech': None, 'detail': '%s: %s: a fresh process and a process that had minified other modules before give different outputs' % (version, o['name']),
+                                                                'witness': {'out': r['out'][:600]}}]})
+        env = common.clean_env(hashseed='0')
+        env['PYTHONPATH'] = common.REPO_SRC
+        pool.run_cases(ops, None, cmd=[py, '-W', 'ignore', os.path.join(common.VERIF, 'vf', 'compat_worker.py')], env=env, timeout=60, batch=1, on_result=on_f,
+                       deadline=run.deadline, nworkers=8, oneshot=True)
     run.notes.append('t_xseed=%.1f' % (time.time() - run.t0))
     # ---- (b)+(d) histories
     nh = 24 if tier == 'quick' else 160
@@ -358,6 +387,18 @@ def main(tier, seed):
         rr = common.rng(seed, 'C11-h', h)
         sub = rr.sample(items, min(len(items), 12))
         hcases.append({'seed': seed * 100000 + h, 'items': sub, 'length': 40 if tier == 'quick' else 80, 'timeout': 280})
+
+    # designed histories: a module that could leave something behind, then modules that would pick it up, all through the bare call and through options
+    by_name = dict((it['name'], it) for it in items)
+    designed = [['seed:module_reads_its_annotations', 'seed:annotated_module_after_annotations_reader', 'seed:idiom_dataclass_and_namedtuple'],
+                ['seed:fstring_three_levels_dict', 'seed:fstring_plain_dict'],
+                ['seed:global_multi_new_name_equals_old', 'seed:nonlocal_multi_new_name_equals_old', 'seed:site_builtins_used'],
+                ['seed:invalid_escape_sequence', 'seed:fstring_plain_dict', 'seed:module_reads_its_annotations']]
+    for dn, names in enumerate(designed):
+        for suffix in ('#bare', '#0', '#1'):
+            sub = [by_name[n + suffix] for n in names if n + suffix in by_name]
+            if len(sub) >= 2:
+                hcases.append({'seed': seed * 100000 + 90000 + dn * 10 + len(suffix), 'items': sub, 'length': 0, 'sequence': list(range(len(sub))) * 2 + list(reversed(range(len(sub)))), 'timeout': 280})
 
     def on_h(c, r):
         run.add({'layer': 'history', 'seed': c['seed'], 'items': [i['name'] for i in c['items']]}, r)
